@@ -1,6 +1,6 @@
 from props import _io, _tables
 
-META = {"level": "proof+bounded",
+META = {"level": "proof",
         "trusted_base": ["google.protobuf runtime", "oracles/io_oracles.py reference codec (independent of /repo)",
                          "iomodel (pyvc/iomodel.py)"],
         "assumptions": ["the Java codec is not executed (no JVM harness in the check); the format definition used is "
